@@ -59,12 +59,55 @@ def write_files(base, files, order):
                 yaml.safe_dump(_fix_keys(content), f, sort_keys=False, default_flow_style=False)
 
 
+class Disk(object):
+    """the user variable files of one case on disk; a session changes them between loads only where a load asks for
+    another content (the files of the other loads are left alone: same path, same mtime)"""
+
+    def __init__(self, base, vfiles, order):
+        self.base, self.current = base, {}
+        write_files(base, vfiles, order)
+        for n in order:
+            self.current[n] = json.dumps(vfiles[n], sort_keys=False)
+
+    def ensure(self, table):
+        for n, doc in table.items():
+            d = json.dumps(doc, sort_keys=False)
+            if self.current.get(n) != d:
+                write_files(self.base, {n: doc}, [n])
+                self.current[n] = d
+
+
+def session_loads(case):
+    """[(index, effective file table, files given)] in the order THIS process has to perform the loads; a case that
+    is not a session is one load"""
+    if 'loads' not in case:
+        return [(None, case['vfiles'], case['given'])]
+    out = []
+    for i in case['load_order']:
+        ld = case['loads'][i]
+        table = dict(case['vfiles'])
+        table.update(ld.get('override') or {})
+        out.append((i, table, ld['given']))
+    return out
+
+
 def run_vars(case, base, root):
-    """in-memory package + user variable files through FlowIRExperimentConfiguration.__init__ and .parametrize"""
+    disk = Disk(base, case['vfiles'], case['create_order'])
+    results = {}
+    for idx, table, given in session_loads(case):
+        disk.ensure(table)
+        results[idx] = one_vars_load(case, base, root, given)
+    if 'loads' not in case:
+        return results[None]
+    return {'session': [results[i] for i in range(len(case['loads']))]}
+
+
+def one_vars_load(case, base, root, given_names):
+    """in-memory package + user variable files through FlowIRExperimentConfiguration.__init__ and .parametrize, and
+    the files as given through layer_many_variable_files itself"""
     import experiment.model.conf as C
     import experiment.model.frontends.flowir as F
-    write_files(base, case['vfiles'], case['create_order'])
-    given = [os.path.join(base, n) for n in case['given']]
+    given = [os.path.join(base, n) for n in given_names]
     out = {}
     for how in ('init', 'parametrize'):
         res = {}
@@ -111,21 +154,36 @@ def run_vars(case, base, root):
             if os.environ.get('C15_DEBUG'):
                 res['trace'] = traceback.format_exc()
         out[how] = res
+    try:
+        out['layer_many'] = {'uv': C.FlowIRExperimentConfiguration.layer_many_variable_files(list(given))}
+    except Exception as e:
+        out['layer_many'] = {'error': type(e).__name__}
     return canon(out, root)
 
 
 def run_pkg(case, base, root):
-    """a package on disk (FlowIR or DSL 2) turned into an Experiment the way tests/utils.py does"""
-    import experiment.model.storage as S
-    import experiment.model.data as D
+    """a package on disk (FlowIR or DSL 2) turned into an Experiment the way tests/utils.py does; a session loads the
+    same package several times in this process, each time with its own list of variable files"""
     pkg = os.path.join(base, 'p.package')
     main = 'conf/flowir_package.yaml' if case['format'] == 'flowir' else 'conf/dsl.yaml'
     files = dict(case['files'])
     files[main] = case['doc']
     write_files(pkg, files, [n for n in case['create_order'] if n in files] + [n for n in files if n not in case['create_order']])
-    write_files(base, case['vfiles'], case['vcreate_order'])
+    disk = Disk(base, case['vfiles'], case['vcreate_order'])
     write_files(base, case['inputs'], sorted(case['inputs']))
-    given = [os.path.join(base, n) for n in case['given']]
+    results = {}
+    for idx, table, given in session_loads(case):
+        disk.ensure(table)
+        results[idx] = one_pkg_load(case, pkg, base, root, given)
+    if 'loads' not in case:
+        return results[None]
+    return {'session': [results[i] for i in range(len(case['loads']))]}
+
+
+def one_pkg_load(case, pkg, base, root, given_names):
+    import experiment.model.storage as S
+    import experiment.model.data as D
+    given = [os.path.join(base, n) for n in given_names]
     res = {}
     try:
         os.chdir(base)
@@ -175,6 +233,7 @@ def run_pkg(case, base, root):
         res = {'error': type(e).__name__}
         if os.environ.get('C15_DEBUG'):
             res['trace'] = traceback.format_exc()
+            res['message'] = str(e)[:300]
     out = canon(res, root)
     # the instance directory name carries a timestamp: remove it
     return json.loads(_strip_instance(json.dumps(out)))
